@@ -87,6 +87,7 @@ class Gen:
     s.allow_narrow = rng.random() < 0.3       # constant operands wider than the context (candidate defect F4)
     s.allow_sext_expr = rng.random() < 0.12   # sext( <operator expression> )
     s.allow_reduce_expr = rng.random() < 0.12 # reduce_*( <operator expression> )
+    s.allow_wrap = rng.random() < 0.1         # negative-step loop whose counter would pass below zero
     s.pre = []            # class-level preamble lines (struct types, child classes)
     s.head = []           # construct(): local constants
     s.lines = []          # construct(): declarations, blocks, connects
@@ -100,6 +101,7 @@ class Gen:
     s.features = set()
     s.children = []       # child Gen objects (their class source goes first)
     s.in_ports = []
+    s.fams = []           # readable array families: (format, dims, width)
 
   # ------------------------------------------------------------------ helpers
   def w(s): return s.rng.choice(WIDTHS)
@@ -382,6 +384,7 @@ class Gen:
         s.lines.append(f's.send = OutIfc( Bits{w} )'); s.avail.append(Sig('s.send.rdy', 1))
         s._ifc_out += [('s.send.msg', w), ('s.send.val', 1)]
     else: s._ifc_out = []
+    if top and rng.random() < 0.4: s.add_ifc_tree()
     # registers (readable from the start)
     regs = []
     for _ in range(rng.randrange(0, 4)):
@@ -405,7 +408,8 @@ class Gen:
     for u in range(nunit):
       r = rng.random()
       if r < 0.14: s.add_child(); continue
-      if r < 0.24: s.add_list_unit(); continue
+      if r < 0.22: s.add_list_unit(); continue
+      if r < 0.30: s.add_array_unit(); continue
       if r < 0.40 and s.structs: s.add_struct_unit(); continue
       if r < 0.50: s.add_connect_unit(); continue
       # plain Bits target(s)
@@ -606,6 +610,227 @@ class Gen:
     s.feat('struct-inst')
     return [f'{target} @= {T.name}( ' + ', '.join(s.expr(ft[1]) for _, ft in T.fields) + ' )']
 
+
+  # ------------------------------------------------------------------ arrays: families of equally shaped signals
+  # A family is a format with one {} per dimension, e.g. 's.bank[{}].lane[{}].rsp' or 's.m3[{}][{}]', its dimensions
+  # and the element width.  Target families are driven completely by a base statement (nested loops / partly or fully
+  # unrolled, the loop variables and constants at every index position) and then partly overwritten by "rich" loops:
+  # negative steps, steps that do not divide the range, ranges crossing a power of two, the loop variable used as index,
+  # in index arithmetic, in arithmetic, inside explicit BitsN(i) casts, in comparisons and as shift amount.
+  def fam_elems(s, fmt, dims):
+    import itertools
+    return [fmt.format(*ix) for ix in itertools.product(*[range(d) for d in dims])]
+
+  def index_expr(s, d, lvs):
+    """an index expression for a dimension of size d; lvs = [(name, values)] of the loop variables in scope"""
+    rng = s.rng
+    cands = []
+    for n, vals in lvs:
+      if all(0 <= v < d for v in vals): cands += [n, n]
+      fits = all(0 <= v < d for v in vals)       # otherwise the type checker rejects the index width
+      if fits and all(0 <= d - 1 - v < d for v in vals): cands.append(f'{d - 1} - {n}')
+      if fits and all(0 <= v - 1 < d for v in vals): cands.append(f'{n} - 1')
+      if fits and all(0 <= v + 1 < d for v in vals): cands.append(f'{n} + 1')
+    if cands and rng.random() < 0.8: s.feat('index-by-loopvar'); return rng.choice(cands)
+    return str(rng.randrange(d))
+
+  def lv_term(s, w, lvs):
+    """(text or None): a w-bit term that uses a loop variable as a VALUE"""
+    rng = s.rng
+    ok = [(n, vals) for n, vals in lvs if max(vals) < (1 << w) and min(vals) >= 0]
+    if not ok: return None
+    n, vals = rng.choice(ok)
+    k = rng.random()
+    base = s.nonconst(w, 2)
+    if k < 0.38 and w <= 128: s.feat('loopvar:BitsN(i)'); return f'({base} {rng.choice(["^", "+", "-", "&", "|"])} Bits{w}( {n} ))'
+    if k < 0.5: s.feat('loopvar:arith'); return f'({base} {rng.choice(["+", "-", "^", "|"])} {n})'
+    if k < 0.65: s.feat('loopvar:shift'); return f'({base} {rng.choice(["<<", ">>"])} {n})'
+    if k < 0.8 and w <= 128: s.feat('loopvar:BitsN(i)'); return f'(Bits{w}( {n} ) {rng.choice(["+", "^", "-"])} {base})'
+    if k < 0.9:
+      ow = rng.choice([x for x in (2, 3, 4, 5, 8, 16) if (1 << x) > max(vals)]); s.feat('loopvar:cmp')
+      return f'zext( {s.nonconst(ow, 2)} {rng.choice(["<", "<=", ">", ">=", "==", "!="])} {n}, {w} )' if w > 1 else f'({s.nonconst(ow, 2)} {rng.choice(["<", ">=", "==", "!="])} {n})'
+    s.feat('loopvar:arith'); return f'({n} {rng.choice(["+", "^", "|"])} {base})'
+
+  def fam_rhs(s, w, lvs, srcs):
+    """right-hand side for one element of a w-bit family; srcs = [(fmt, dims, w)] readable families"""
+    rng = s.rng
+    parts = []
+    same = [f for f in srcs if f[2] == w]
+    other = [f for f in srcs if f[2] != w]
+    if same and rng.random() < 0.75:
+      fmt, dims, _ = rng.choice(same); s.feat('family-read')
+      parts.append(fmt.format(*[s.index_expr(d, lvs) for d in dims]))
+    elif other and rng.random() < 0.5:
+      fmt, dims, ow = rng.choice(other); s.feat('family-read')
+      e = fmt.format(*[s.index_expr(d, lvs) for d in dims])
+      parts.append(f'zext( {e}, {w} )' if ow < w else f'trunc( {e}, {w} )')
+    if rng.random() < 0.6:
+      t = s.lv_term(w, lvs)
+      if t: parts.append(t)
+    if not parts or rng.random() < 0.4: parts.append(s.nonconst(w, 1))
+    e = parts[0]
+    for q in parts[1:]: e = f'({e} {rng.choice(["+", "^", "-", "&", "|"])} {q})'
+    return e
+
+  def rich_range(s, d):
+    """(header args, values) of a loop over a dimension of size d"""
+    rng = s.rng
+    for _ in range(20):
+      if rng.random() < 0.45 and not s.ys_safe:
+        a = rng.randrange(0, d); step = -rng.choice([1, 1, 2, 3]); b = rng.randrange(0, a + 1)
+        args = (a, b, step)
+        vv = list(range(*args))
+        if vv and vv[-1] + step < 0 and not s.allow_wrap: continue      # `int unsigned` counter would wrap: known defect shape
+        if vv and vv[-1] + step < 0: s.feat('for:negative-step-below-zero')
+      else:
+        a = rng.randrange(0, min(d, 3)); step = rng.choice([1, 2, 2, 3, 3, 5]); b = rng.randrange(a, d + 1)
+        args = (a, b, step) if (step != 1 or rng.random() < 0.5) else ((a, b) if a else (b,))
+      vals = list(range(*args))
+      if vals: break
+    else: args, vals = (d,), list(range(d))
+    if len(args) == 3 and args[2] < 0: s.feat('for:negative-step')
+    if len(args) == 3 and args[2] > 1: s.feat('for:step>1' + ('' if (args[1] - args[0]) % args[2] == 0 else ':non-dividing'))
+    return ', '.join(map(str, args)), vals
+
+  def drive_family(s, fmt, dims, w, srcs, op='@='):
+    """statements (one update block body) that define every element of the family"""
+    rng = s.rng
+    names = ['i', 'j', 'k', 'm'][:len(dims)]
+    body = []
+    # ---- base: every element once
+    form = rng.choice(['loops', 'loops', 'mixed', 'unrolled']) if len(dims) > 1 else rng.choice(['loops', 'loops', 'unrolled'])
+    total = 1
+    for d in dims: total *= d
+    if form == 'unrolled' and total > 12: form = 'loops'
+    if form == 'loops':
+      lvs = [(n, list(range(d))) for n, d in zip(names, dims)]
+      ind = ''
+      for n, d in zip(names, dims): body.append(f'{ind}for {n} in range({d}):'); ind += '  '
+      body.append(f'{ind}{fmt.format(*names)} {op} {s.fam_rhs(w, lvs, srcs)}')
+      s.feat(f'family-{len(dims)}d:nested-loops')
+    elif form == 'mixed':
+      # loop over some dimensions, constants at the others
+      looped = [rng.random() < 0.5 for _ in dims]
+      if all(looped) or not any(looped): looped[rng.randrange(len(dims))] ^= True
+      import itertools
+      const_dims = [range(d) if not l else [None] for d, l in zip(dims, looped)]
+      for cix in itertools.product(*const_dims):
+        lvs = [(n, list(range(d))) for n, d, l in zip(names, dims, looped) if l]
+        ind = ''
+        for n, d, l in zip(names, dims, looped):
+          if l: body.append(f'{ind}for {n} in range({d}):'); ind += '  '
+        idx = [n if l else str(c) for n, l, c in zip(names, looped, cix)]
+        body.append(f'{ind}{fmt.format(*idx)} {op} {s.fam_rhs(w, lvs, srcs)}')
+      s.feat(f'family-{len(dims)}d:loops+constants')
+    else:
+      import itertools
+      for ix in itertools.product(*[range(d) for d in dims]):
+        body.append(f'{fmt.format(*ix)} {op} {s.fam_rhs(w, [], srcs)}')
+      s.feat(f'family-{len(dims)}d:unrolled')
+    # ---- overrides with rich loops (the last write of the block wins, in pymtl3 and in an always block alike)
+    for _ in range(rng.choice([0, 1, 1, 2])):
+      p = rng.randrange(len(dims))
+      hdr, vals = s.rich_range(dims[p])
+      lvs = [(names[p], vals)]
+      ind = '  '
+      body.append(f'for {names[p]} in range( {hdr} ):')
+      idx = []
+      for q, d in enumerate(dims):
+        if q == p: idx.append(names[p])
+        elif rng.random() < 0.4 and len(dims) > 1:
+          body.append(f'{ind}for {names[q]} in range({d}):'); ind += '  '; lvs.append((names[q], list(range(d)))); idx.append(names[q])
+        else: idx.append(str(rng.randrange(d)))
+      tgt = fmt.format(*idx)
+      if rng.random() < 0.4:
+        kk = rng.choice(vals); s.feat('loopvar:if-cmp')
+        body.append(f'{ind}if {names[p]} {rng.choice([">", "<", ">=", "==", "!="])} {kk}:')
+        body.append(f'{ind}  {tgt} {op} {s.fam_rhs(w, lvs, srcs)}')
+        if rng.random() < 0.5: body += [f'{ind}else:', f'{ind}  {tgt} {op} {s.fam_rhs(w, lvs, srcs)}']
+      else:
+        body.append(f'{ind}{tgt} {op} {s.fam_rhs(w, lvs, srcs)}')
+      # index arithmetic on the target: neighbour element, when it stays in range
+      if rng.random() < 0.3 and all(0 <= v - 1 < dims[p] for v in vals):
+        idx2 = list(idx); idx2[p] = f'{names[p]} - 1'; s.feat('index-arith-target')
+        body.append(f'{ind}{fmt.format(*idx2)} {op} {s.fam_rhs(w, lvs, srcs)}')
+    return body
+
+  def add_array_unit(s):
+    """multi-dimensional lists of ports / wires (1-3 dimensions)"""
+    rng = s.rng
+    nd = rng.choice([1, 2, 2, 2, 3]) if s.depth == 0 else 1
+    dims = [rng.choice([2, 3, 4, 5, 7, 8, 9, 11, 16, 17]) if nd == 1 else rng.choice([2, 2, 3, 4, 5]) for _ in range(nd)]
+    while len(dims) > 1 and __import__('math').prod(dims) > 24: dims[dims.index(max(dims))] -= 1
+    w = rng.choice([1, 4, 5, 8, 8, 16, 32, 33])
+    def ctor(kind, w, dims):
+      e = f'{kind}( {w} )'
+      for d in reversed(dims): e = f'[ {e} for _ in range({d}) ]'
+      return e
+    srcs = list(s.fams)
+    if s.depth == 0 and rng.random() < 0.7:
+      nm = s.name_sig('mi'); sw = w if rng.random() < 0.7 else rng.choice([4, 8, 16])
+      s.lines.append(f's.{nm} = {ctor("InPort", sw, dims)}')
+      fam = (f's.{nm}' + '[{}]' * nd, list(dims), sw); s.fams.append(fam); srcs.append(fam)
+      for e in s.fam_elems(fam[0], dims): s.avail.append(Sig(e, sw))
+    kind = 'OutPort' if (rng.random() < 0.55 and s.depth == 0) else 'Wire'
+    nm = s.name_sig('mo' if kind == 'OutPort' else 'mw')
+    s.lines.append(f's.{nm} = {ctor(kind, w, dims)}')
+    fmt = f's.{nm}' + '[{}]' * nd
+    s.feat(f'array-{nd}d')
+    s._tmp_added = []
+    s.comb_block(s.finish_tmp(s.drive_family(fmt, dims, w, srcs)))
+    s.fams.append((fmt, list(dims), w))
+    for e in s.fam_elems(fmt, dims): s.avail.append(Sig(e, w))
+    if nd == 1 and dims[0] & (dims[0] - 1) == 0: s.lists.append((f's.{nm}', dims[0], w))
+
+  def add_ifc_tree(s):
+    """interfaces nested in (lists of) interfaces, 1-3 levels, every output member driven from an update block"""
+    rng = s.rng
+    # (every 3-level nesting of interfaces makes VStructuralTranslatorL3 raise TypeError: rarely generated, counted as rejected)
+    depth = (3 if rng.random() < 0.04 else rng.choice([1, 2, 2, 2])) if not s.ys_safe else 1
+    u = s.uid
+    # innermost interface: ports only
+    members = {}     # class name -> [(member path fmt, dims, kind, w)]
+    prev = None
+    # containers from the outside in: s.bank, then .sub of each level
+    is_list = [rng.random() < 0.75 for c in range(depth)]     # is_list[0] = s.bank, is_list[c] = .sub of level depth-c
+    for lvl in range(depth):
+      cn = f'Ifc{u}_{lvl}'
+      L = [f'class {cn}( Interface ):', '  def construct( s ):']
+      mem = []
+      for k in range(rng.randrange(1, 3)):
+        w = rng.choice([1, 2, 4, 8, 8, 16]); L.append(f'    s.d{k} = InPort( {w} )'); mem.append((f'.d{k}', [], 'in', w))
+      for k in range(rng.randrange(1, 3)):
+        w = rng.choice([1, 4, 8, 8, 16]); L.append(f'    s.q{k} = OutPort( {w} )'); mem.append((f'.q{k}', [], 'out', w))
+      if prev is not None:
+        if is_list[depth - lvl]:
+          n = rng.choice([1, 2, 3, 3, 4]); L.append(f'    s.sub = [ {prev}() for _ in range({n}) ]')
+          mem += [('.sub[{}]' + f, [n] + d, k, w) for f, d, k, w in members[prev]]
+        else:
+          L.append(f'    s.sub = {prev}()'); mem += [('.sub' + f, d, k, w) for f, d, k, w in members[prev]]
+      members[cn] = mem; prev = cn
+      s.pre += L
+    if is_list[0]:
+      n = rng.choice([2, 2, 3, 4]); s.lines.append(f's.bank = [ {prev}() for _ in range({n}) ]')
+      fams = [('s.bank[{}]' + f, [n] + d, k, w) for f, d, k, w in members[prev]]
+    else:
+      s.lines.append(f's.bank = {prev}()'); fams = [('s.bank' + f, d, k, w) for f, d, k, w in members[prev]]
+    s.feat(f'interface-tree:{depth}-levels')
+    if any(len(d) >= 2 for _, d, _, _ in fams): s.feat('nested-interface-array')
+    srcs = []
+    for f, d, k, w in fams:
+      if k == 'in':
+        if d: srcs.append((f, d, w)); s.fams.append((f, d, w))
+        for e in (s.fam_elems(f, d) if d else [f]): s.avail.append(Sig(e, w))
+    for f, d, k, w in fams:
+      if k != 'out': continue
+      s._tmp_added = []
+      if d: body = s.drive_family(f, d, w, srcs + [x for x in s.fams if x not in srcs])
+      else: body = s.assign_stmts(f, w, '@=')
+      s.comb_block(s.finish_tmp(body))
+    for f, d, k, w in fams:
+      if k == 'out':
+        for e in (s.fam_elems(f, d) if d else [f]): s.avail.append(Sig(e, w))
+
   # ------------------------------------------------------------------ source
   def class_source(s):
     out = []
@@ -673,6 +898,12 @@ class DVec:
 class DIfc( Interface ):
   def construct( s ):
     s.msg = InPort( 8 ); s.val = InPort()
+class DInner( Interface ):
+  def construct( s ):
+    s.msg = InPort( 8 ); s.rsp = OutPort( 8 )
+class DOuter( Interface ):
+  def construct( s ):
+    s.lane = [ DInner() for _ in range(3) ]
 '''
 
 def directed_other_designs():
@@ -714,5 +945,9 @@ class {cls}( Component ):
     ('D_st_in_field', mk('D_st_in_field', 's.i = InPort( DNest ); s.o = OutPort( 12 ); s.o2 = OutPort( 8 )', 's.o @= s.i.p\n      s.o2 @= s.i.p.a').replace('from pymtl3 import *', DPT), 'control'),
     ('D_trunc_field', mk('D_trunc_field', 's.i = InPort( DPt ); s.o = OutPort( 4 )', 's.o @= trunc( s.i.a, 4 )').replace('from pymtl3 import *', DPT), 'trunc-of-struct-field'),
     ('D_trunc_ifc',   mk('D_trunc_ifc', 's.recv = DIfc(); s.o = OutPort( 4 )', 's.o @= trunc( s.recv.msg, 4 )').replace('from pymtl3 import *', DPT), 'trunc-of-interface-member'),
+    ('D_loop_desc',   mk('D_loop_desc', 's.in_ = InPort( 4 ); s.o = [ OutPort( 4 ) for _ in range(8) ]', 's.o[0] @= 0\n      for i in range( 7, 0, -1 ):\n        s.o[i] @= s.in_ ^ Bits4( i )'), 'control'),
+    ('D_loop_wrap',   mk('D_loop_wrap', 's.in_ = InPort( 4 ); s.o = [ OutPort( 4 ) for _ in range(8) ]', 'for i in range( 8 ):\n        s.o[i] @= 0\n      for i in range( 4, 0, -3 ):\n        s.o[i] @= s.in_'), 'for-negative-step-below-zero'),
+    ('D_nested_ifc',  mk('D_nested_ifc', 's.bank = [ DOuter() for _ in range(2) ]', 'for i in range(2):\n        for j in range(3):\n          s.bank[i].lane[j].rsp @= s.bank[i].lane[j].msg + 1').replace('from pymtl3 import *', DPT), 'nested-interface-array'),
+    ('D_array_2d',    mk('D_array_2d', 's.m = [ [ InPort( 8 ) for _ in range(3) ] for _ in range(2) ]; s.o = [ [ OutPort( 8 ) for _ in range(3) ] for _ in range(2) ]', 'for i in range(2):\n        for j in range(3):\n          s.o[i][j] @= s.m[1 - i][j] + Bits8( j )'), 'control'),
     ('D_red_sig',     mk('D_red_sig',     io + 's.o = OutPort( 1 )', 's.o @= reduce_xor( s.w ) & reduce_or( s.a ) | reduce_and( s.b )'), 'control'),
   ]
